@@ -115,7 +115,7 @@ def build_cases(tier, seed):
 def watch_one(probe, wait_ms, text):
     """returns (problem or None, summary dict)"""
     try:
-        rc, out, err = C.run([probe, "tcwatch", str(wait_ms), hexs(text)], timeout=30 + wait_ms / 1000.0)
+        rc, out, err = C.run([probe, "tcwatch", str(wait_ms), hexs(text)], timeout=40 + 12 * wait_ms / 1000.0)
     except OSError as ex:     # argument too long
         return None, {"skipped": repr(ex)}
     info = {"rc": rc}
@@ -223,7 +223,7 @@ def run(b, ps, tier, seed):
     n_watch, wait_ms = (220, 300) if tier == "quick" else (3000, 3000)
     sample = pick_watch_sample(rng, cases, impl, phase, n_watch) if impl else []
     t1 = time.time()
-    watch_stats = {"run": 0, "verdicts": {}, "phases": {}, "max_before_minus_base": 0, "inconsistent_with_batch": 0}
+    watch_stats = {"run": 0, "verdicts": {}, "phases": {}, "max_before_minus_base": 0, "inconsistent_with_batch": 0, "needed_grace": 0}
     watch_bad = []
     if sample:
         with concurrent.futures.ThreadPoolExecutor(max_workers=16) as ex:
@@ -237,6 +237,8 @@ def run(b, ps, tier, seed):
                 ph = info.get("phase", "-")
                 watch_stats["phases"][ph] = watch_stats["phases"].get(ph, 0) + 1
                 watch_stats["max_before_minus_base"] = max(watch_stats["max_before_minus_base"], info.get("before", 0) - info.get("base", 0))
+                if info.get("grace_ms", 0) > 0:
+                    watch_stats["needed_grace"] += 1
                 if v in VERDICTS and v != first_word(impl.get(i, "")):
                     watch_stats["inconsistent_with_batch"] += 1
                     problem = problem or "verdict in a fresh process (%s) differs from the batch run (%s)" % (v, first_word(impl.get(i, "")))
